@@ -150,6 +150,13 @@ Theorem C09_accounting_fb13 : forall o, fp_ok o -> forall c boot up tau s ds,
 Proof. exact C09_accounting_fb13_thm. Qed.
 Print Assumptions C09_accounting_fb13.
 
+(* a command re-sent for the direction that is already running goes through supla_esp_gpio_relay_hi: the translator extracts the set
+   of shutter fields that function assigns ("start_time,stop_time" as bytes) — neither last_time nor a run-time counter nor the position:
+   the accounting state of the theorems above is untouched by repeated commands (the RESEND event of the wire model is the identity) *)
+Theorem C09_relay_hi_leaves_accounting_state : RELAY_HI_RS_WRITES = [115; 116; 97; 114; 116; 95; 116; 105; 109; 101; 44; 115; 116; 111; 112; 95; 116; 105; 109; 101].
+Proof. reflexivity. Qed.
+Print Assumptions C09_relay_hi_leaves_accounting_state.
+
 (* ---------- the same theorems for the bit-exact IEEE binary64 instance `fops`, without the hypothesis fp_ok ---------- *)
 (* FP0..FP3 hold for `fops` (C09/FloatFacts.v, Flocq: Prim2B bridge, Bmult_correct, Bdiv_correct, binary_normalize_correct) *)
 Theorem C09_fp_facts : fp_ok fops.
